@@ -439,20 +439,32 @@ bool varintBitmapContains(const varintBitmap *vb, uint16_t value) {
     return false;
 }
 
+/* Insert 'value' into a result set that is being built. varintBitmapAdd()
+ * returns false both for a duplicate and for an allocation failure; only the
+ * latter leaves the value absent. */
+static bool resultAdd_(varintBitmap *result, uint16_t value) {
+    return varintBitmapAdd(result, value) ||
+           varintBitmapContains(result, value);
+}
+
 varintBitmap *varintBitmapAnd(const varintBitmap *vb1,
                               const varintBitmap *vb2) {
     varintBitmap *result = varintBitmapCreate();
+    if (!result) {
+        return NULL; /* Out of memory */
+    }
 
-    /* Optimize: AND with array containers */
+    /* Optimize for array-array case */
     if (vb1->type == VARINT_BITMAP_ARRAY && vb2->type == VARINT_BITMAP_ARRAY) {
-        /* Intersect two sorted arrays */
         uint32_t i = 0, j = 0;
         while (i < vb1->cardinality && j < vb2->cardinality) {
             uint16_t v1 = vb1->container.array.values[i];
             uint16_t v2 = vb2->container.array.values[j];
-
             if (v1 == v2) {
-                varintBitmapAdd(result, v1);
+                if (!resultAdd_(result, v1)) {
+                    varintBitmapFree(result);
+                    return NULL; /* Out of memory */
+                }
                 i++;
                 j++;
             } else if (v1 < v2) {
@@ -464,7 +476,7 @@ varintBitmap *varintBitmapAnd(const varintBitmap *vb1,
         return result;
     }
 
-    /* General case: iterate smaller set and check membership */
+    /* General case: iterate smaller set, check membership in larger */
     const varintBitmap *smaller =
         vb1->cardinality < vb2->cardinality ? vb1 : vb2;
     const varintBitmap *other = vb1->cardinality < vb2->cardinality ? vb2 : vb1;
@@ -472,7 +484,10 @@ varintBitmap *varintBitmapAnd(const varintBitmap *vb1,
     varintBitmapIterator it = varintBitmapCreateIterator(smaller);
     while (varintBitmapIteratorNext(&it)) {
         if (varintBitmapContains(other, it.currentValue)) {
-            varintBitmapAdd(result, it.currentValue);
+            if (!resultAdd_(result, it.currentValue)) {
+                varintBitmapFree(result);
+                return NULL; /* Out of memory */
+            }
         }
     }
 
@@ -481,10 +496,16 @@ varintBitmap *varintBitmapAnd(const varintBitmap *vb1,
 
 varintBitmap *varintBitmapOr(const varintBitmap *vb1, const varintBitmap *vb2) {
     varintBitmap *result = varintBitmapClone(vb1);
+    if (!result) {
+        return NULL; /* Out of memory */
+    }
 
     varintBitmapIterator it = varintBitmapCreateIterator(vb2);
     while (varintBitmapIteratorNext(&it)) {
-        varintBitmapAdd(result, it.currentValue);
+        if (!resultAdd_(result, it.currentValue)) {
+            varintBitmapFree(result);
+            return NULL; /* Out of memory */
+        }
     }
 
     return result;
@@ -493,20 +514,29 @@ varintBitmap *varintBitmapOr(const varintBitmap *vb1, const varintBitmap *vb2) {
 varintBitmap *varintBitmapXor(const varintBitmap *vb1,
                               const varintBitmap *vb2) {
     varintBitmap *result = varintBitmapCreate();
+    if (!result) {
+        return NULL; /* Out of memory */
+    }
 
-    /* Add elements from vb1 that are not in vb2 */
+    /* Add elements in vb1 but not in vb2 */
     varintBitmapIterator it1 = varintBitmapCreateIterator(vb1);
     while (varintBitmapIteratorNext(&it1)) {
         if (!varintBitmapContains(vb2, it1.currentValue)) {
-            varintBitmapAdd(result, it1.currentValue);
+            if (!resultAdd_(result, it1.currentValue)) {
+                varintBitmapFree(result);
+                return NULL; /* Out of memory */
+            }
         }
     }
 
-    /* Add elements from vb2 that are not in vb1 */
+    /* Add elements in vb2 but not in vb1 */
     varintBitmapIterator it2 = varintBitmapCreateIterator(vb2);
     while (varintBitmapIteratorNext(&it2)) {
         if (!varintBitmapContains(vb1, it2.currentValue)) {
-            varintBitmapAdd(result, it2.currentValue);
+            if (!resultAdd_(result, it2.currentValue)) {
+                varintBitmapFree(result);
+                return NULL; /* Out of memory */
+            }
         }
     }
 
@@ -516,11 +546,17 @@ varintBitmap *varintBitmapXor(const varintBitmap *vb1,
 varintBitmap *varintBitmapAndNot(const varintBitmap *vb1,
                                  const varintBitmap *vb2) {
     varintBitmap *result = varintBitmapCreate();
+    if (!result) {
+        return NULL; /* Out of memory */
+    }
 
     varintBitmapIterator it = varintBitmapCreateIterator(vb1);
     while (varintBitmapIteratorNext(&it)) {
         if (!varintBitmapContains(vb2, it.currentValue)) {
-            varintBitmapAdd(result, it.currentValue);
+            if (!resultAdd_(result, it.currentValue)) {
+                varintBitmapFree(result);
+                return NULL; /* Out of memory */
+            }
         }
     }
 
